@@ -116,7 +116,7 @@ class C10(Prop):
             ny = rec["sr"] / 2
             s = Fraction(rng.randint(0, 16), 4)
             g = {"type": "BoundingBox", "coordinates": [s, ny - rng.choice([1000, 1, 0]), s + Fraction(rng.randint(0, 8), 4), ny + rng.choice([0, 1, 500])]}
-        return {"kind": kind, "rec": rec, "g": g, "cast": rng.random() < 0.7, "raise_on_time": rng.random() < 0.5}
+        return {"kind": kind, "rec": rec, "g": g, "cast": rng.random() < 0.7, "raise_on_time": rng.random() < 0.5, "omit_defaults": rng.random() < 0.5}
 
     def _sequence(self, rng):
         rec = {"sr": Fraction(8192), "te": Fraction(1)}
@@ -242,12 +242,18 @@ class C10(Prop):
             ann = data.SoundEventAnnotation(uuid=U(3), sound_event=se, tags=[self._T(("dwc:sp", "species", "Myotis"))])
             norm = None if geom is None else G.from_impl(geom)
             if k == "seg_export":
-                r = guarded(S.segment_from_annotation, ann, cast_to_segment=c["cast"], value_only=True)
+                kw = {} if (c["cast"] is True and c.get("omit_defaults")) else {"cast_to_segment": c["cast"]}  # True is the documented default
+                r = guarded(S.segment_from_annotation, ann, value_only=True, **kw)
                 if r[0] != "ok":
                     return {"res": ["err", r[1]], "msg": r[2], "norm": norm}
                 s = r[1]
                 return {"res": ["ok", [Fraction(s.onset_s), Fraction(s.offset_s), int(s.onset_sample), int(s.offset_sample)]], "label": s.label, "norm": norm}
-            r = guarded(B.bbox_from_annotation, ann, cast_to_bbox=c["cast"], raise_on_time_geometries=c["raise_on_time"], value_only=True)
+            kw = {}
+            if not (c["cast"] is True and c.get("omit_defaults")):
+                kw["cast_to_bbox"] = c["cast"]
+            if not (c["raise_on_time"] is True and c.get("omit_defaults")):
+                kw["raise_on_time_geometries"] = c["raise_on_time"]
+            r = guarded(B.bbox_from_annotation, ann, value_only=True, **kw)
             if r[0] != "ok":
                 return {"res": ["err", r[1]], "msg": r[2], "norm": norm}
             b = r[1]
